@@ -83,11 +83,71 @@ def run_accessor(om, label, meth, args, kwargs):
         return None, None, om.ev.events[-20:], False
 
 
-def check_accessors(ctx, led, v, rules=("total", "pure", "fresh"), prefix="C18"):
+def canon_value(om, st, val, depth=0):
+    """Structural, canonical rendering of an accessor result in state st (for comparing the result
+    of the same call in two states)."""
+    from .canon import Canon
+
+    if depth > 4:
+        return "..."
+    if isinstance(val, Ref):
+        o = st.heap.get(val.id)
+        if o is None:
+            return "dangling"
+        if o.kind == "map":
+            cn = Canon(om.ev, st)
+            return ("map", bool(o.ordered), tuple((repr(k), cn(p).sortkey() if isinstance(p, Term) else repr(p), canon_value(om, st, x, depth + 1)) for k in o.order for p, x in [o.entries[k]]))
+        if o.kind in ("list", "set"):
+            cn = Canon(om.ev, st)
+            return (o.kind, tuple((cn(g).sortkey() if isinstance(g, Term) else repr(g), canon_value(om, st, x, depth + 1)) for g, x in o.items))
+        return ("obj", o.kind)
+    if isinstance(val, TupleVal):
+        return ("tuple", tuple(canon_value(om, st, x, depth + 1) for x in val.items))
+    if isinstance(val, Term):
+        from .canon import Canon
+
+        try:
+            return Canon(om.ev, st)(val).sortkey()
+        except AnalysisError:
+            return val.sortkey()
+    return repr(val)
+
+
+def observable_after(ctx, om, v, st_after, only=None):
+    """Re-runs every accessor on the state left behind by an accessor that wrote to the object and
+    compares each result with the result on the freshly constructed state.  Returns the list of
+    (label, what) for the calls whose result changed (or that now raise)."""
+    key = ("accessor_baseline", v)
+    base = ctx.memo.setdefault(key, {})
+    diffs = []
+    for label, meth, args, kwargs in accessor_calls(om, v):
+        if meth not in om.cls.methods:
+            continue
+        if label not in base:
+            val0, st0, _, alive0 = run_accessor(om, label, meth, args, kwargs)
+            base[label] = canon_value(om, st0, val0) if alive0 else "raises"
+        a2 = [om.self_ref if a == "SELF" else a for a in args]
+        n0 = len(om.ev.events)
+        try:
+            val1, st1, _ = om.call(meth, a2, kwargs, st=st_after)
+            got = canon_value(om, st1, val1)
+        except Dead:
+            got = "raises"
+        except AnalysisError as e:
+            got = "not analysable: %s" % e
+        del om.ev.events[n0:]
+        if got != base[label]:
+            diffs.append((label, "raises" if got == "raises" else "returns a different result"))
+    return diffs
+
+
+def check_accessors(ctx, led, v, rules=("total", "pure", "fresh"), prefix="C18", only=None):
     om = get_model(ctx, v)
     n_calls = 0
     n_sites = 0
     for label, meth, args, kwargs in accessor_calls(om, v):
+        if only is not None and meth not in only:
+            continue
         n_calls += 1
         f = om.cls.methods.get(meth)
         if f is None:
@@ -141,7 +201,17 @@ def check_accessors(ctx, led, v, rules=("total", "pure", "fresh"), prefix="C18")
                     writes.append((e, "consumes an iterator stored on the object (map/filter/zip result): the next call sees it empty"))
                 elif e.kind == "global_write":
                     writes.append((e, "writes module-level state (%s)" % e.data.get("what")))
+            diffs = None
+            if writes:
+                # a write is harmful only if some later accessor call can tell: re-run every
+                # accessor on the state this call leaves behind and compare with the fresh state
+                if any(e.kind == "global_write" for e, _ in writes):
+                    diffs = [("(module state)", "is not modelled after a module-level write")]
+                else:
+                    diffs = observable_after(ctx, om, v, st)
             for e, what in writes:
+                if not diffs:
+                    break
                 stmt = e.node
                 mod = e.module
                 while not isinstance(stmt, ast.stmt) and mod.parent(stmt) is not None:
@@ -151,8 +221,10 @@ def check_accessors(ctx, led, v, rules=("total", "pure", "fresh"), prefix="C18")
                     prefix + ".writes",
                     "%s::%s" % (fn, short(stmt)),
                     e.where(),
-                    "accessor %s %s: later calls can return different results" % (label, what),
+                    "accessor %s %s: afterwards %s" % (label, what, "; ".join("%s %s" % d for d in diffs[:3])),
                 )
+            if writes and not diffs:
+                led.ok(prefix + ".writes", ck0, where, "%d write(s) to the object, not observable: every accessor returns the same result afterwards" % len(writes))
             if not writes:
                 led.ok(prefix + ".writes", ck0, where, "abstract interpretation met no write to object or module state")
         if "fresh" in rules:
@@ -184,12 +256,14 @@ def check_accessors(ctx, led, v, rules=("total", "pure", "fresh"), prefix="C18")
     return n_calls, n_sites
 
 
-def check_effect_writes(ctx, led, v, prefix="C18"):
+def check_effect_writes(ctx, led, v, prefix="C18", only=None):
     """E4 cross-check: transitive write set of every accessor is empty."""
     E = get_effects(ctx)
     info = VERSIONS[v]
     n = 0
     for a in ACCESSORS[v]:
+        if only is not None and a not in only:
+            continue
         q = "%s.%s.%s" % (info["mod"], info["cls"], a)
         if q not in E.infos:
             raise AnalysisError(prefix + ".anchor", "%s vanished" % q)
@@ -198,10 +272,13 @@ def check_effect_writes(ctx, led, v, prefix="C18"):
         if not effs:
             led.ok(prefix + ".effects", q, "cvss/%s.py" % info["mod"], "transitive write set empty (%d functions)" % len(E.reachable([q])))
         for e in effs:
-            led.violation(
+            # syntactic census only: whether a write can be observed by a later call is decided on
+            # the value graph (rule .writes re-runs every accessor on the state left behind); a
+            # module-level or ambient write is C19's matter unless it changes a result
+            led.info(
                 prefix + ".effects",
                 e.key(),
                 e.where(),
-                "accessor %s reaches a state-changing construct: %s" % (a, e.what),
+                "accessor %s reaches a state-changing construct (%s): %s" % (a, e.kind, e.what),
             )
     return n
